@@ -23,11 +23,11 @@ THEOREMS = [
     'PbBss.C15.oracle_inverts_euclidean',
     'PbBss.C15.oracle_inverts_cos',
     'PbBss.C15.oracle_inverts_multiply_optimal',
+    'PbBss.C15.oracle_inverts_multiply_greedy',
 ]
 ASSUMPTIONS = [
     'exact inversion for cos/multiply is a real-number statement; generated references have normalised-row separation '
     '>= 1e-6 (closer rows are counted, not judged)',
-    "multiply + greedy inversion is not a theorem (multiply is not row dominant); it is covered by search only",
 ]
 
 from pb_bss import permutation_alignment as pa  # noqa: E402
